@@ -1290,10 +1290,14 @@ class ValueObject(Value):
         if self.hasItem(key):
             return self.getItem(key)
         current = self
+        seen = [self]
         while current.hasItem("_proto_"):
             current = current.getItem("_proto_")
             if not current:
                 break
+            if any(current is visited for visited in seen):
+                break  # the _proto_ chain runs in a circle
+            seen.append(current)
             if current.hasItem(key):
                 return current.getItem(key)
         return None
